@@ -50,6 +50,9 @@ CHECKS = {
  "C12": dict(level="fault_enumeration", technique="deviation-bounded exhaustive exploration around valid inputs (bound 1): every single token-level and byte-level deviation at every position of the seeds, whole pipeline executed in process under recover(); finite Go-package menu through the real binary",
    text="Every single-token deletion, duplication, transposition, replacement and insertion (menu of ~75 extreme lexemes), every truncation and every special-byte substitution of the seed specifications goes through the whole generator: it must return, never panic, and either produce three complete Go files or at least one diagnostic. About 35 package configurations (missing, ill-typed, ill-shaped, stale files, no module) are run through the real lox binary.",
    note="Bound 1 only. No exact hang criterion exists inside the generator: a 120 s watchdog ends a shard as inconclusive (exit 0), never as a violation. Whether accepted output compiles with the package is left to C06.", ref="DESIGN.md section C12"),
+ "C03": dict(level="exploration", technique="exhaustive enumeration of a shape-complete sugar family; unmodified generated code compiled with a logging user package by the real toolchain and run on every sentence up to a bound; action log compared with the post-order of the reference derivation tree",
+   text="For every grammar of the family, the real generated parser (unmodified, compiled) runs every sentence up to the bound; the sequence of action calls, each argument and each result must be exactly the bottom-up, left-to-right traversal of the unique derivation tree, with the documented values for ? * + *! @list.",
+   note="Trusted: internal/cfgref trees and the documented sugar values as implemented in cmd/loxmc/c03.go. Bounded by the family and sentence length.", ref="DESIGN.md section C03"),
 }
 
 NA_REASON = "check not built yet (work in progress; see DESIGN.md for the plan)"
